@@ -1,5 +1,5 @@
 import CTV.Model.Faults
-import CTV.Gen.HandlerChecks
+import CTV.Model.HandlerCheckSpec
 /-!
 # C08 — the hand model's check sequences ARE the regenerated ones
 
@@ -37,7 +37,7 @@ theorem addChain_err (bo co bu so : Bool) (m : Nat) :
     (if !bo then ({ status := 400 } : Outcome) else if !co then { status := 400 } else if !bu then { status := 500 }
       else { status := m, rpc := true }) =
     out4 (Gen.addChainInternal (!bo) (!co) false (!bu) true m false false false false false (!so) false false) := by
-  cases bo <;> cases co <;> cases bu <;> simp [Gen.addChainInternal, out4]
+  cases bo <;> cases co <;> cases bu <;> simp [Gen.addChainInternal_eq_spec, Spec.addChainInternal, out4]
 theorem addChain_tie_q (cfg : Cfg) (q : Req) (rn qn ln d nt : Bool) :
     handler cfg .addChain q (.queue rn qn ln d nt) =
       out4 (Gen.addChainInternal (!q.bodyOk) (!q.chainOk) false (!q.buildOk) false 0 rn qn ln (!d) (!nt) (!q.signOk) false false) := by
@@ -61,7 +61,7 @@ theorem addPreChain_tie_e (cfg : Cfg) (q : Req) (e : BErr) :
 that stops after the first value would change the regenerated unit) and carries a non-empty chain -/
 theorem bodyOk_means (readFails jsonBad : Bool) (chainLen : Int) :
     Gen.parseBodyAsJSONChain readFails jsonBad chainLen = .ok ↔ (readFails = false ∧ jsonBad = false ∧ chainLen ≠ 0) := by
-  simp only [Gen.parseBodyAsJSONChain]
+  simp only [Gen.parseBodyAsJSONChain_eq_spec, Spec.parseBodyAsJSONChain]
   cases readFails <;> cases jsonBad <;> by_cases h : chainLen = 0 <;> simp [h]
 
 /-- what `Req.chainOk` folds (besides `MerkleTreeLeafFromChain`): the chain validates, the poison test does not fail, and the
@@ -69,7 +69,7 @@ kind of the leaf is the one the endpoint expects -/
 theorem chainOk_means (validateFails precertTestFails isPrecert expecting : Bool) :
     Gen.verifyAddChain validateFails precertTestFails isPrecert expecting = .ok ↔
       (validateFails = false ∧ precertTestFails = false ∧ isPrecert = expecting) := by
-  simp only [Gen.verifyAddChain]
+  simp only [Gen.verifyAddChain_eq_spec, Spec.verifyAddChain]
   cases validateFails <;> cases precertTestFails <;> cases isPrecert <;> cases expecting <;> simp
 
 /-- the SCT is recorded as issued strictly after every check on the reply and on the signer has passed; the backend is
@@ -81,7 +81,7 @@ theorem addChain_order (b c l u r : Bool) (m : Nat) (rn qn ln lu tr sf mf wf : B
     (o.2.2.1 = true ↔ (b = false ∧ c = false ∧ l = false ∧ u = false)) ∧
     (o.1 = 200 ∧ o.2.1 = false → o.2.2.2 = true) := by
   subst ho
-  cases b <;> simp [Gen.addChainInternal]
+  cases b <;> simp [Gen.addChainInternal_eq_spec, Spec.addChainInternal]
   cases c <;> simp
   cases l <;> simp
   cases u <;> simp
@@ -99,7 +99,7 @@ theorem addChain_err_iff (b c l u r : Bool) (m : Nat) (rn qn ln lu tr sf mf wf :
     (o : Nat × Bool × Bool × Bool) (ho : o = Gen.addChainInternal b c l u r m rn qn ln lu tr sf mf wf) :
     (o.2.1 = true ↔ o.1 ≠ 200) ∧ (wf = true → o.2.1 = true) := by
   subst ho
-  cases b <;> simp [Gen.addChainInternal]
+  cases b <;> simp [Gen.addChainInternal_eq_spec, Spec.addChainInternal]
   cases c <;> simp
   cases l <;> simp
   cases u <;> simp
@@ -132,14 +132,14 @@ theorem getSTH_tie_sth (cfg : Cfg) (q : Req) (r : Root) :
     handler cfg .getSTH q (.sth r) =
       sthOutcome cfg (sthKind (Gen.getSignedLogRoot false false false (!r.present) (!r.decodes) r.hashLen) q.signOk) 0 := by
   rcases r with ⟨p, d, sz, hl⟩
-  simp only [handler, pre, respond, respondSth, sthOutcome, sthKind, Gen.getSignedLogRoot, Gen.logSTHGetterGetSTH, Gen.logInfoGetSTH, Gen.getSTHHandler]
+  simp only [handler, pre, respond, respondSth, sthOutcome, sthKind, Gen.getSignedLogRoot_eq_spec, Spec.getSignedLogRoot, Gen.logSTHGetterGetSTH_eq_spec, Spec.logSTHGetterGetSTH, Gen.logInfoGetSTH_eq_spec, Spec.logInfoGetSTH, Gen.getSTHHandler_eq_spec, Spec.getSTHHandler]
   have hi : ((hl : Int) = 32) ↔ hl = 32 := by omega
   cases p <;> cases d <;> cases q.signOk <;> by_cases h : hl = 32 <;> simp [h, hi]
 
 theorem getSTH_tie_err (cfg : Cfg) (q : Req) (e : BErr) :
     handler cfg .getSTH q (.err e) =
       sthOutcome cfg (sthKind (Gen.getSignedLogRoot false false true false false 32) q.signOk) (toHTTPStatus cfg e) := by
-  simp [handler, pre, respond, sthOutcome, sthKind, Gen.getSignedLogRoot, Gen.logSTHGetterGetSTH, Gen.logInfoGetSTH, Gen.getSTHHandler]
+  simp [handler, pre, respond, sthOutcome, sthKind, Gen.getSignedLogRoot_eq_spec, Spec.getSignedLogRoot, Gen.logSTHGetterGetSTH_eq_spec, Spec.logSTHGetterGetSTH, Gen.logInfoGetSTH_eq_spec, Spec.logInfoGetSTH, Gen.getSTHHandler_eq_spec, Spec.getSTHHandler]
 /-- a mirror log's STH getter hands the backend's (and the STH storage's) error on unchanged, so `toHTTPStatus` still sees
 the gRPC code: quota, unavailability and timeouts keep their 429 / 503 / 504 on mirrors as well -/
 theorem mirror_getSTH_passthrough (rootFails storeFails : Bool) :
@@ -149,7 +149,7 @@ theorem mirror_getSTH_passthrough (rootFails storeFails : Bool) :
 
 /-- `checkAuditPath` (regenerated loop, test `len(node) != sha256.Size`) is the model's `hashesOk` -/
 theorem hashesOk_is_checkAuditPath (ls : List Nat) : hashesOk ls = Gen.checkAuditPath (ls.any (· != 32)) := by
-  simp only [hashesOk, Gen.checkAuditPath]
+  simp only [hashesOk, Gen.checkAuditPath_eq_spec, Spec.checkAuditPath]
   induction ls with
   | nil => rfl
   | cons x xs ih => by_cases h : x = 32 <;> simp_all [List.all_cons, List.any_cons]
@@ -173,10 +173,10 @@ theorem getSTHCons_tie_cons (cfg : Cfg) (q : Req) (r : Root) (pp : Bool) (hl : L
         false 0 (rootBad r) r.size (!pp) (hashesOk hl) false false) := by
   simp only [handler, pre_cons]
   rcases hp : parseCons q with _ | ⟨f, s⟩
-  · simp [Gen.getSTHConsistency, out3]
+  · simp [Gen.getSTHConsistency_eq_spec, Spec.getSTHConsistency, out3]
   · by_cases hf : f = 0
-    · simp [hf, Gen.getSTHConsistency, out3]
-    · simp only [hf, if_false, respond, respondCons, Gen.getSTHConsistency, out3, rootBad, Option.isNone_some, Option.getD_some]
+    · simp [hf, Gen.getSTHConsistency_eq_spec, Spec.getSTHConsistency, out3]
+    · simp only [hf, if_false, respond, respondCons, Gen.getSTHConsistency_eq_spec, Spec.getSTHConsistency, out3, rootBad, Option.isNone_some, Option.getD_some]
       rcases r with ⟨p, d, sz, hh⟩
       cases p <;> cases d <;> cases pp <;> cases hashesOk hl <;> simp [hf] <;> split <;> simp_all
 
@@ -186,8 +186,8 @@ theorem getSTHCons_tie_err (cfg : Cfg) (q : Req) (e : BErr) :
         true (toHTTPStatus cfg e) false 0 false true false false) := by
   simp only [handler, pre_cons]
   rcases hp : parseCons q with _ | ⟨f, s⟩
-  · simp [Gen.getSTHConsistency, out3]
-  · by_cases hf : f = 0 <;> simp [hf, Gen.getSTHConsistency, out3, respond]
+  · simp [Gen.getSTHConsistency_eq_spec, Spec.getSTHConsistency, out3]
+  · by_cases hf : f = 0 <;> simp [hf, Gen.getSTHConsistency_eq_spec, Spec.getSTHConsistency, out3, respond]
 /-! ## get-proof-by-hash, get-entries, get-entry-and-proof -/
 
 /-- `hashOk` folds the two tests on the `hash` parameter (non-empty; base64) into one fact -/
@@ -199,7 +199,7 @@ theorem getProofByHash_tie_proofs (cfg : Cfg) (q : Req) (r : Root) (ps : List (L
         false 0 (rootBad r) r.size ps.length (hashesOk (ps.headD [])) false false) := by
   simp only [handler, pre, hashLenOf]
   rcases r with ⟨p, d, sz, hh⟩
-  cases q.hashOk <;> simp [Gen.getProofByHash, out3]
+  cases q.hashOk <;> simp [Gen.getProofByHash_eq_spec, Spec.getProofByHash, out3]
   rcases parseInt64 q.p1 with _ | ts <;> simp
   by_cases h1 : ts < 1 <;> simp [h1, respond, respondProofs, rootBad]
   rcases ps with _ | ⟨hd, tl⟩ <;> cases p <;> cases d <;> simp <;> by_cases hk : hashesOk hd = true <;> simp [hk] <;> split <;> simp_all
@@ -209,7 +209,7 @@ theorem getProofByHash_tie_err (cfg : Cfg) (q : Req) (e : BErr) :
       out3 (Gen.getProofByHash (hashLenOf q) false (parseInt64 q.p1).isNone ((parseInt64 q.p1).getD 0)
         true (toHTTPStatus cfg e) false 0 1 true false false) := by
   simp only [handler, pre, hashLenOf]
-  cases q.hashOk <;> simp [Gen.getProofByHash, out3]
+  cases q.hashOk <;> simp [Gen.getProofByHash_eq_spec, Spec.getProofByHash, out3]
   rcases parseInt64 q.p1 with _ | ts <;> simp
   by_cases h1 : ts < 1 <;> simp [h1, respond]
 
@@ -233,9 +233,9 @@ theorem getEntries_tie_leaves (cfg : Cfg) (q : Req) (r : Root) (fixOk : Bool) (i
         (rootBad r) r.size idxs.length (!indicesOk (p.getD (0, 0)).1 idxs) false false false) := by
   simp only [handler, pre_entries]
   rcases hp : parseEntries cfg q with _ | ⟨s, e⟩
-  · simp [Gen.getEntries, out3]
+  · simp [Gen.getEntries_eq_spec, Spec.getEntries, out3]
   · rcases r with ⟨rp, rd, sz, hh⟩
-    simp only [respond, respondLeaves, Gen.getEntries, Gen.rpcGetLeavesByRange, Gen.getEntriesCount, out3, rootBad, Option.isNone_some, Option.getD_some]
+    simp only [respond, respondLeaves, Gen.getEntries_eq_spec, Spec.getEntries, Gen.rpcGetLeavesByRange_eq_spec, Spec.rpcGetLeavesByRange, Gen.getEntriesCount, out3, rootBad, Option.isNone_some, Option.getD_some]
     have hw : I64.wrap64 (I64.sub (I64.add e 1) s) = I64.sub (I64.add e 1) s := I64.wrap64_id (I64.wrap64_inRange _)
     cases fixOk <;> cases rp <;> cases rd <;> simp [hw] <;> by_cases hk : indicesOk s idxs = true <;> simp [hk] <;> (repeat' split) <;> simp_all
 
@@ -246,7 +246,7 @@ theorem getEntries_tie_err (cfg : Cfg) (q : Req) (e : BErr) :
       out3 (Gen.getEntries p.isNone (p.getD (0, 0)).1 (p.getD (0, 0)).2 rpcSt.isSome (rpcSt.getD 0)
         false 1 0 false false false false) := by
   simp only [handler, pre_entries]
-  rcases hp : parseEntries cfg q with _ | ⟨s, e⟩ <;> simp [Gen.getEntries, Gen.rpcGetLeavesByRange, out3, respond]
+  rcases hp : parseEntries cfg q with _ | ⟨s, e⟩ <;> simp [Gen.getEntries_eq_spec, Spec.getEntries, Gen.rpcGetLeavesByRange_eq_spec, Spec.rpcGetLeavesByRange, out3, respond]
 
 def parseEntry (q : Req) : Option (Int × Int) :=
   match parseInt64 q.p1, parseInt64 q.p2 with
@@ -268,9 +268,9 @@ theorem getEntryAndProof_tie_entry (cfg : Cfg) (q : Req) (r : Root) (fixOk leafP
         (rootBad r) r.size (!leafPresent) lvl (!pp) nh false false) := by
   simp only [handler, pre_entry]
   rcases hp : parseEntry q with _ | ⟨li, ts⟩
-  · simp [Gen.getEntryAndProof, out3]
+  · simp [Gen.getEntryAndProof_eq_spec, Spec.getEntryAndProof, out3]
   · rcases r with ⟨rp, rd, sz, hh⟩
-    simp only [respond, respondEntry, Gen.getEntryAndProof, Gen.rpcGetEntryAndProof, out3, rootBad, Option.isNone_some, Option.getD_some]
+    simp only [respond, respondEntry, Gen.getEntryAndProof_eq_spec, Spec.getEntryAndProof, Gen.rpcGetEntryAndProof_eq_spec, Spec.rpcGetEntryAndProof, out3, rootBad, Option.isNone_some, Option.getD_some]
     cases fixOk <;> cases rp <;> cases rd <;> cases leafPresent <;> cases pp <;> simp <;> (repeat' split) <;> simp_all <;> omega
 
 theorem getEntryAndProof_tie_err (cfg : Cfg) (q : Req) (e : BErr) :
@@ -280,7 +280,7 @@ theorem getEntryAndProof_tie_err (cfg : Cfg) (q : Req) (e : BErr) :
       out3 (Gen.getEntryAndProof p.isNone (p.getD (0, 0)).1 (p.getD (0, 0)).2 rpcSt.isSome (rpcSt.getD 0)
         false 0 false 1 false 1 false false) := by
   simp only [handler, pre_entry]
-  rcases hp : parseEntry q with _ | ⟨li, ts⟩ <;> simp [Gen.getEntryAndProof, Gen.rpcGetEntryAndProof, out3, respond]
+  rcases hp : parseEntry q with _ | ⟨li, ts⟩ <;> simp [Gen.getEntryAndProof_eq_spec, Spec.getEntryAndProof, Gen.rpcGetEntryAndProof_eq_spec, Spec.rpcGetEntryAndProof, out3, respond]
 /-! ## `AppHandler.ServeHTTP`, and: a handler returns an error exactly when its status is not 200 -/
 def seen (x : Int × Bool) (handlerStatus : Nat) : Nat := if x.1 = 0 then handlerStatus else x.1.toNat
 
@@ -289,7 +289,7 @@ theorem serve_tie (cfg : Cfg) (ep : Ep) (q : Req) (reply : Reply) :
     let x := Gen.serveHTTP (!q.methodOk) (isGet ep) (!q.formOk) (h.status != 200) h.status
     (serve cfg ep q reply).status = seen x h.status ∧
     ((serve cfg ep q reply).rpc = (x.2 && h.rpc)) ∧ ((serve cfg ep q reply).sct = (x.2 && h.sct)) := by
-  simp only [serve, Gen.serveHTTP, seen]
+  simp only [serve, Gen.serveHTTP_eq_spec, Spec.serveHTTP, seen]
   cases q.methodOk <;> cases isGet ep <;> cases q.formOk <;> simp <;>
   by_cases h2 : (handler cfg ep q reply).status = 200 <;> simp [h2]
 
@@ -297,30 +297,30 @@ theorem serve_tie (cfg : Cfg) (ep : Ep) (q : Req) (reply : Reply) :
 
 theorem getSTH_err_iff (a : Bool) (m : Nat) (w : Bool) (hm : m ≠ 200) (o : Nat × Bool) (ho : o = Gen.getSTHHandler a m w) :
     (o.2 = true ↔ o.1 ≠ 200) ∧ (w = true → o.2 = true) := by
-  simp only [Gen.getSTHHandler] at ho
+  simp only [Gen.getSTHHandler_eq_spec, Spec.getSTHHandler] at ho
   (repeat' split at ho) <;> subst ho <;> simp_all
 
 theorem getSTHConsistency_err_iff (pf : Bool) (f s : Int) (r : Bool) (m : Nat) (rb : Bool) (rs : Int) (pn po mf wf : Bool) (hm : m ≠ 200)
     (o : Nat × Bool × Bool) (ho : o = Gen.getSTHConsistency pf f s r m rb rs pn po mf wf) :
     (o.2.1 = true ↔ o.1 ≠ 200) ∧ (mf = true ∨ wf = true → o.2.1 = true) := by
-  simp only [Gen.getSTHConsistency] at ho
+  simp only [Gen.getSTHConsistency_eq_spec, Spec.getSTHConsistency] at ho
   (repeat' split at ho) <;> subst ho <;> simp_all
 
 theorem getProofByHash_err_iff (hl : Int) (hb tb : Bool) (ts : Int) (r : Bool) (m : Nat) (rb : Bool) (rs np : Int) (po mf wf : Bool) (hm : m ≠ 200)
     (o : Nat × Bool × Bool) (ho : o = Gen.getProofByHash hl hb tb ts r m rb rs np po mf wf) :
     (o.2.1 = true ↔ o.1 ≠ 200) ∧ (mf = true ∨ wf = true → o.2.1 = true) := by
-  simp only [Gen.getProofByHash] at ho
+  simp only [Gen.getProofByHash_eq_spec, Spec.getProofByHash] at ho
   (repeat' split at ho) <;> subst ho <;> simp_all
 
 theorem getEntries_err_iff (pf : Bool) (s e : Int) (r : Bool) (m : Nat) (rb : Bool) (rs nl : Int) (mi ld mf wf : Bool) (hm : m ≠ 200)
     (o : Nat × Bool × Bool) (ho : o = Gen.getEntries pf s e r m rb rs nl mi ld mf wf) :
     (o.2.1 = true ↔ o.1 ≠ 200) ∧ (mf = true ∨ wf = true → o.2.1 = true) := by
-  simp only [Gen.getEntries] at ho
+  simp only [Gen.getEntries_eq_spec, Spec.getEntries] at ho
   (repeat' split at ho) <;> subst ho <;> simp_all
 
 theorem getEntryAndProof_err_iff (pf : Bool) (li ts : Int) (r : Bool) (m : Nat) (rb : Bool) (rs : Int) (ln : Bool) (lv : Int) (pn : Bool) (nh : Int)
     (mf wf : Bool) (hm : m ≠ 200) (o : Nat × Bool × Bool) (ho : o = Gen.getEntryAndProof pf li ts r m rb rs ln lv pn nh mf wf) :
     (o.2.1 = true ↔ o.1 ≠ 200) ∧ (mf = true ∨ wf = true → o.2.1 = true) := by
-  simp only [Gen.getEntryAndProof] at ho
+  simp only [Gen.getEntryAndProof_eq_spec, Spec.getEntryAndProof] at ho
   (repeat' split at ho) <;> subst ho <;> simp_all
 end C08
